@@ -270,7 +270,14 @@ def mechanisms(script, out):
     if not panics and not any(tp):
         return ms
     seen = set()
+    lockp = set()       # modules that panicked while holding their property's lock
     incs = [0] * len(d["mods"])
+    if any(mo.get("flags") for mo in d["mods"]):
+        ms.add("stereotype_other_flags_set")
+    if any(mo.get("flags", 0) & 8 and not mo["catch"] for mo in d["mods"]):
+        ms.add("stereotype_inform_parent_without_catch")
+    if any(len(x) > 2 and x[2] for mo in d["mods"] for ps in (mo["start"], mo["msg"], mo["tasks"], [mo["end"]]) for p in ps for x in p if x[0] == "setcatch"):
+        ms.add("stereotype_other_flags_changed_at_run_time")
     for phase, t, mask, recs in run.units():
         mods = {rec_mod(r) for r in recs}
         for r in recs:
@@ -279,6 +286,12 @@ def mechanisms(script, out):
                 nowu = t if phase == "loop" else (0 if phase == "start" else next((x[3] for x in recs if x[0] in CALLS), 0))
                 if src in ("sched_past", "send_past", "restart_past") and nowu == 0:
                     ms.add("past_call_at_time_zero_panics_by_script")
+                elif src in ("prop_panic", "prop_reenter"):
+                    ms.add("panic_begins_while_property_lock_is_held")
+                    ms.add("panic_by_reentrant_property_access" if src == "prop_reenter" else "panic_inside_prop_closure")
+                    if r[2] > 0:
+                        ms.add("lock_held_panic_in_task")
+                    lockp.add(r[1])
                 elif src in ("sched_past", "send_past", "restart_past"):
                     api = {"sched_past": "schedule_at_past", "send_past": "send_at_past", "restart_past": "restart_at_past"}[src]
                     ms.add("panic_raised_by_" + api)
@@ -294,6 +307,10 @@ def mechanisms(script, out):
                         ms.add("library_panic_after_buffered_sends")
             if r[0] == R_RESET:
                 incs[r[1]] = r[3]
+            if r[0] == R_LOG and r[3] >= 100 and (r[3] - 100) in lockp:
+                ms.add("property_read_after_lock_held_panic")
+                ms.add("property_read_by_other_module_after_lock_held_panic" if r[1] != r[3] - 100
+                       else "property_read_by_the_module_itself_after_restart")
             if r[0] == R_PANIC and r[2] == 0:
                 kind = "handle_message" if any(x[0] == R_MSG for x in recs) else ("at_sim_end" if phase == "end" else
                        ("restart_at_sim_start" if phase == "loop" else "at_sim_start"))
@@ -400,6 +417,8 @@ def gen_script(rng):
         place(d, s, gen_panic(rng))
     for m in d["mods"]:
         m["catch"] = rng.randint(0, 1)
+        # the other four Stereotyp flags: des never reads them, any of the 16 combinations is legal
+        m["flags"] = rng.choice([0, 2 | 4, 8, 8, 1 | 8, 15, rng.randrange(16)])
         # which JoinHandles go to join() rather than try_join()
         m["join"] = rng.choice([0, 0, 1, 2, 3, 5, 7]) if m["tasks"] else 0
     # the stereotype is a Cell: it may be changed in the very callback that panics (just before the panic!()), in an earlier
@@ -409,11 +428,22 @@ def gen_script(rng):
         prog = d["mods"][mm]["end"] if kind == "end" else d["mods"][mm][kind][i]
         if r < 0.35:
             at = next((ix for ix, x in enumerate(prog) if x[0] in PANICS), 0)
-            prog.insert(rng.randint(0, at), ("setcatch", rng.randint(0, 1)))
+            prog.insert(rng.randint(0, at), ("setcatch", rng.randint(0, 1), rng.choice([0, 8, 8, 9, 15, rng.randrange(16)])))
         elif r < 0.5:
             other = rng.choice(["start", "msg", "tasks"])
             if d["mods"][mm][other]:
-                rng.choice(d["mods"][mm][other]).insert(0, ("setcatch", rng.randint(0, 1)))
+                rng.choice(d["mods"][mm][other]).insert(0, ("setcatch", rng.randint(0, 1), rng.choice([0, 8, 9, rng.randrange(16)])))
+    # the property of a panicking module is read afterwards: by other modules (handlers, tasks, at_sim_end) and by the module
+    # itself (start programs of later incarnations, at_sim_end)
+    k = len(d["mods"])
+    for mm in {s[0] for s in chosen}:
+        if rng.random() < 0.7:
+            for o in range(k):
+                if o != mm and rng.random() < 0.7:
+                    tgt = rng.choice([d["mods"][o]["end"]] + d["mods"][o]["msg"] + d["mods"][o]["tasks"])
+                    tgt.append(("prop_read", mm))
+            if rng.random() < 0.5:
+                rng.choice(d["mods"][mm]["start"] + [d["mods"][mm]["end"]]).insert(0, ("prop_read", mm))
     cb = [s[0] for s in chosen if s[1] != "tasks"]
     if cb and rng.random() < 0.6:
         d["variant"] = rng.choice(cb)
@@ -429,7 +459,8 @@ def fam_long_tail(rng):
     k = rng.choice([2, 3])
     mods = []
     for i in range(k):
-        mods.append({"catch": rng.randint(0, 1), "join": rng.choice([0, 1, 2, 3]), "stages": rng.choice([1, 1, 2]), "bud": rng.choice([4, 8]),
+        mods.append({"catch": rng.randint(0, 1), "join": rng.choice([0, 1, 2, 3]), "flags": rng.choice([0, 8, 15]),
+                     "stages": rng.choice([1, 1, 2]), "bud": rng.choice([4, 8]),
                      "start": [[]], "msg": [[("log", 1)], [("send", 0, rng.choice([0, 1, 2]), 0)]],
                      "tasks": [[("sleep", rng.choice([1, 2, 3])), ("log", 5)] + ([("sleep", rng.choice([2, 30])), ("log", 6)] if rng.random() < 0.5 else [])
                                for _ in range(rng.choice([0, 1, 2]))],
@@ -482,10 +513,17 @@ def exhaustive():
     for base in fixed_sims():
         for site in sites(base):
             for catch in (0, 1):
-                for act in (("panic",), ("sched_past", 0, 1), ("send_past", 0, 2, 1), ("restart_past", 0)):
+                for act in (("panic",), ("sched_past", 0, 1), ("send_past", 0, 2, 1), ("restart_past", 0), ("prop_panic", 0),
+                            ("prop_panic", 1), ("prop_reenter",)):
                     d = copy.deepcopy(base)
                     place(d, site, act)
                     d["mods"][site[0]]["catch"] = catch
+                    d["mods"][site[0]]["flags"] = 8 if act[0] == "panic" else (15 if catch else 1)
+                    for o, mo in enumerate(d["mods"]):
+                        if o != site[0]:
+                            mo["end"].append(("prop_read", site[0]))
+                            if mo["msg"]:
+                                mo["msg"][-1].append(("prop_read", site[0]))
                     if site[1] != "tasks":
                         d["variant"] = site[0]
                     yield encode(d)
